@@ -522,3 +522,73 @@ def do_callstack_search(req):
 
 
 HANDLERS.update({'callstack_case': do_callstack_case, 'callstack_search': do_callstack_search})
+
+
+# ------------------------------------------------------------------------------ C02 / C06 refute mode
+def _v2_eval(threads, pad, records, preload=None, cut=None):
+    import io
+    from pykdebugparser.kd_buf_parser import KdBufParser
+    from pykdebugparser.kevent import from_kd_buf
+    from spec import container as S
+    data = S.build_v2(threads, pad, records)
+    if cut is not None:
+        data = data[:cut]
+    tp, pn = dict(preload or {}), {k + 1000: 'old' for k in (preload or {})}
+    p = KdBufParser(tp, pn)
+    got, err = [], None
+    try:
+        for e in p.parse(io.BytesIO(data)):
+            got.append(e)
+    except BaseException as ex:  # noqa
+        err = '%s: %s' % (type(ex).__name__, ex)
+    return data, got, err, tp, pn
+
+
+def do_v2_case(req):
+    from pykdebugparser.kevent import from_kd_buf
+    from spec import container as S
+    threads = [tuple(t) for t in req['threads']]
+    records = [bytes.fromhex(r) for r in req['records']]
+    data, got, err, tp, pn = _v2_eval(threads, req['pad'], records, preload=req.get('preload'))
+    exp = [from_kd_buf(r) for r in records]
+    etp, epn = S.expected_tables(threads)
+    what = ''
+    if err is not None:
+        what = 'parsing a well-formed version-2 dump raised %s' % err
+    elif got != exp:
+        what = 'yielded %d events, the dump holds %d records%s' % (len(got), len(exp), '' if len(got) != len(exp) else ' (contents differ)')
+    elif tp != etp or pn != epn:
+        what = 'thread tables %r / %r differ from the dump\'s thread map %r / %r' % (tp, pn, etp, epn)
+    return {'violates': bool(what), 'what': what, 'events': len(got), 'error': err}
+
+
+def do_v2_search(req):
+    import random
+    import struct
+    rnd = random.Random(req.get('seed', 0))
+    budget = req.get('budget', 500)
+    skip_leading_zero = 'first-record-leading-zero' in (req.get('known') or [])
+    tried = 0
+    while tried < budget:
+        n = rnd.choice([0, 1, 2, 3])
+        threads = [(rnd.choice([1, 2, 3, 0x10]), rnd.choice([5, 6, 7]), rnd.choice(['a', 'proc', 'x' * 19, ''])) for _ in range(n)]
+        pad = rnd.choice([0, 0, 1, 7, 8, 32, 100])
+        m = rnd.choice([0, 1, 2, 5])
+        records = []
+        for i in range(m):
+            ts = rnd.choice([0, 1, 256, 0x0100000000000000, rnd.getrandbits(64)])
+            records.append(struct.pack('<Q32sQIIQ', ts, bytes(rnd.getrandbits(8) for _ in range(32)), rnd.choice([1, 2, 3]),
+                                       rnd.getrandbits(32), 0, 0))
+        if skip_leading_zero and records and records[0][0] == 0:
+            continue
+        preload = rnd.choice([None, {77: 88}])
+        tried += 1
+        req2 = {'kind': 'v2_case', 'threads': [list(t) for t in threads], 'pad': pad, 'records': [r.hex() for r in records], 'preload': preload}
+        r = do_v2_case(req2)
+        if r['violates']:
+            r['request'] = req2
+            return {'tried': tried, 'bound': 'random dumps: <= 3 threads, padding <= 100, <= 5 records', 'found': r}
+    return {'tried': tried, 'bound': 'random dumps: <= 3 threads, padding <= 100, <= 5 records', 'found': None}
+
+
+HANDLERS.update({'v2_case': do_v2_case, 'v2_search': do_v2_search})
